@@ -1,7 +1,11 @@
 -- Root of the library: everything that must build.
 import RjModel.Model.Parse
 import RjModel.Generated.Constants
+import RjModel.Props.C02
+import RjModel.Props.C03
+import RjModel.Props.C05
 import RjModel.Props.C06
+import RjModel.Props.C07
 import RjModel.Props.C10
 import RjModel.Props.C11
 import RjModel.Props.C13
